@@ -183,13 +183,13 @@ CHECK_DEADLOCK FALSE
 '''
 
 
-def validate(events, work, log, tag='tv'):
+def validate(events, work, log, tag='tv', maxshards=3):
     """Trace_Codec.tla over the observations, sharded; returns (bad, drift, stat)."""
     if not events:
         return [], [], {'f9': 0, 'abort': 0}
     t0 = time.time()
     weight = sum(1 + len(e.get('bytes', ())) // 400 for e in events)
-    k = max(1, min(6, math.ceil(weight / 700.0)))
+    k = max(1, min(maxshards, math.ceil(weight / 1500.0)))
     parts = [events[i::k] for i in range(k)]
     mut = scan_mut()
 
@@ -390,7 +390,7 @@ def run(pid, tier, seed, work, log, replay=None):
     if replay:
         scen = [json.load(open(replay))]
     elif pid == 'C16':
-        vectors = run_gen(work, hash_inputs(tier, seed), True, 1, seed, 4 if tier == 'quick' else 8, log)
+        vectors = run_gen(work, hash_inputs(tier, seed), True, 1, seed, 2 if tier == 'quick' else 8, log)
         scen = [scen_of_vector(v) for v in vectors]
     else:
         # ---- (a) model checking of the scanner; every state is an abstract file
@@ -401,7 +401,7 @@ def run(pid, tier, seed, work, log, replay=None):
         if r['violated']:
             res['lead'].append(('MC_Scan', 'InvAll violated (model-only)', r['out'][-600:].replace('\n', ' | ')))
         # the model rediscovers F9 when it is not excused (a lead by itself; the real-code traces decide)
-        if not f9_fixed():
+        if tier == 'thorough' and not f9_fixed():
             r2, _, info2 = run_mc(work, 'mc_f9', 3, False, False, '{}', log, workers=2)
             mcruns.append(info2)
             cov['f9_rediscovered_by_model'] = bool(r2['violated'])
@@ -420,7 +420,7 @@ def run(pid, tier, seed, work, log, replay=None):
         if tier == 'quick':
             small = [f for f in files if sum(f['base']) <= 3]
             rest = [f for f in files if sum(f['base']) > 3]
-            pick = small + rr.sample(rest, min(len(rest), max(0, 2400 - len(small))))
+            pick = small + rr.sample(rest, min(len(rest), max(0, 1500 - len(small))))
         else:
             full = [f for f in files if sum(f['base']) <= 6]
             rest = [f for f in files if sum(f['base']) > 6]
@@ -430,7 +430,7 @@ def run(pid, tier, seed, work, log, replay=None):
         scen = [scen_of_file(rr, 'f%d' % i, f) for i, f in enumerate(pick)]
         scen += random_files(tier, seed)
         scen += detect_scenarios(tier, seed)
-        vectors = run_gen(work, layout_inputs(tier, seed), False, 2, seed, 2 if tier == 'quick' else 6, log)
+        vectors = run_gen(work, layout_inputs(tier, seed), False, 2, seed, 1 if tier == 'quick' else 6, log)
         scen += [scen_of_vector(v) for v in vectors]
     if not replay and os.path.isdir(fixed_dir):
         for f in sorted(os.listdir(fixed_dir)):
@@ -448,9 +448,9 @@ def run(pid, tier, seed, work, log, replay=None):
         raise V.Inconclusive('no observation for scenarios %s' % missing[:5])
     log('%d scenarios executed on the real code (%d observations, %.1fs)' % (len(scen), len(events), time.time() - t1))
     # ---- (d) TLC judges
-    bad, drift, stat = validate(events, work, log)
+    bad, drift, stat = validate(events, work, log, maxshards=2 if tier == 'quick' else 8)
     byid = {s['id']: s for s in scen}
-    if not replay:
+    if not replay and tier == 'thorough':
         cov['selftest_corrupted_observations_rejected'] = selftest_binding(pid, events, bad, work, log)
     f9, viol = [], {}
     for sid, n, chk in sorted(set(bad)):
